@@ -322,12 +322,17 @@ def observe_pack(binary, packs, structured, macros=bl.DEFAULT_MACROS, lock=10000
         P.write_sources({pk.name: pk.data for pk in packs})
         P.set_lock(lock)
         paths = {os.path.join(P.src, pk.name): pk for pk in packs}
+        def abnormal(r):
+            return r.exit_class in ("panic", "timeout", "signal", "killed")
         r1 = bl.run_breadlog(binary, P.config_path, check=True, tmpdir=P.tmp, roots=(), shim=False, timeout=timeout)
         before = {p: pk.data for p, pk in paths.items()}
-        r2 = bl.run_breadlog(binary, P.config_path, check=False, tmpdir=P.tmp, roots=(), shim=False, timeout=timeout)
+        # once a run has hung or died on these files the other three runs are given little time: the verdict is in
+        t2 = 15 if abnormal(r1) else timeout
+        r2 = bl.run_breadlog(binary, P.config_path, check=False, tmpdir=P.tmp, roots=(), shim=False, timeout=t2)
         after = P.read_sources()
-        r3 = bl.run_breadlog(binary, P.config_path, check=True, tmpdir=P.tmp, roots=(), shim=False, timeout=timeout)
-        r4 = bl.run_breadlog(binary, P.config_path, check=False, tmpdir=P.tmp, roots=(), shim=False, timeout=timeout)
+        t3 = 15 if (abnormal(r1) or abnormal(r2)) else timeout
+        r3 = bl.run_breadlog(binary, P.config_path, check=True, tmpdir=P.tmp, roots=(), shim=False, timeout=t3)
+        r4 = bl.run_breadlog(binary, P.config_path, check=False, tmpdir=P.tmp, roots=(), shim=False, timeout=t3)
         after2 = P.read_sources()
         lock_after, lock_after2 = None, P.get_lock()
         res = {}
